@@ -191,7 +191,7 @@ array_accessor:
 	;
 
 any_level:
-	INT_P							{ $$, _ = strconv.Atoi($1) }
+	INT_P							{ $$ = anyLevel($1) }
 	| LAST_P						{ $$ = -1 }
 	;
 
@@ -329,3 +329,15 @@ method:
 	| STRINGFUNC_P					{ $$ = ast.NewMethod(ast.MethodString) }
 	;
 %%
+
+// anyLevel converts the text of an INT_P token, which may be written in any
+// of the integer forms the lexer accepts (decimal, hex, octal, binary, with
+// underscores), to a .** level. Levels too large for an int are unbounded.
+func anyLevel(text string) int {
+	level, err := strconv.ParseInt(text, 0, 0)
+	if err != nil {
+		// Out of range (the lexer has validated the syntax).
+		return -1
+	}
+	return int(level)
+}
